@@ -237,7 +237,10 @@ def apply (env : Env) (runForm : Form → GS → Res → Option (List Glyph)) (s
   | .q, [] => some ({ s with stack := s.gs :: s.stack }, [])
   | .Q, [] =>
     match s.stack with
-    | [] => none
+    | [] =>
+      -- nothing saved in this content stream. On a page there is nothing below either: `Q` restores
+      -- nothing. Inside a form it would reach into the caller's saved states: outside the domain.
+      if s.res.active.isEmpty then some (s, []) else none
     | g :: rest => some ({ s with gs := g, stack := rest }, [])
   | .cm, [.num a, .num b, .num c, .num d, .num e, .num f] =>
     some ({ s with gs := { s.gs with ctm := mult_matrix (a, b, c, d, e, f) s.gs.ctm } }, [])
@@ -355,12 +358,14 @@ def runInstrs (env : Env) (runForm : Form → GS → Res → Option (List Glyph)
       | some (s2, g2) => some (s2, g1 ++ g2)
 
 /-- A content stream (page contents or form body) from a given graphics state: its own
-graphics-state stack, which must be empty again at the end; no text object left open. -/
+graphics-state stack; no text object left open at the end. A form must have restored everything it
+saved (its `q`/`Q` are nested inside the caller's); what a page leaves saved at its end is dropped
+with the page — the next page starts from the initial state with an empty stack. -/
 def runStream (env : Env) (runForm : Form → GS → Res → Option (List Glyph)) (gs : GS) (res : Res)
     (is : List Instr) : Option (List Glyph) :=
   match runInstrs env runForm ⟨gs, [], none, res⟩ is with
   | none => none
-  | some (s, gl) => if s.txt.isNone && s.stack.isEmpty then some gl else none
+  | some (s, gl) => if s.txt.isNone && (s.stack.isEmpty || res.active.isEmpty) then some gl else none
 
 /-- A form XObject invoked with graphics state `gs` (CTM already multiplied by `Matrix`). -/
 def runForm (env : Env) : Nat → Form → GS → Res → Option (List Glyph)
